@@ -25,23 +25,24 @@ open Driver
 let split_on c s = String.split_on_char c s
 
 (* ---------------------------------------------------------------- query engine *)
+(* QueryRateLimiting as (NotFirst, NotAny, WaitOnRetries, NoWaitFirst) *)
 let rl_of_tok = function
-  | "z" -> { rl_not_first = false; rl_not_any = false; rl_wait_on_retries = false; rl_no_wait_first = false }
-  | "nf" -> { rl_not_first = true; rl_not_any = false; rl_wait_on_retries = false; rl_no_wait_first = false }
-  | "na" -> { rl_not_first = false; rl_not_any = true; rl_wait_on_retries = false; rl_no_wait_first = false }
-  | "nfna" -> { rl_not_first = true; rl_not_any = true; rl_wait_on_retries = false; rl_no_wait_first = false }
-  | "wr" -> { rl_not_first = false; rl_not_any = false; rl_wait_on_retries = true; rl_no_wait_first = false }
-  | "nw" -> { rl_not_first = false; rl_not_any = false; rl_wait_on_retries = false; rl_no_wait_first = true }
+  | "z" -> (false, false, false, false)
+  | "nf" -> (true, false, false, false)
+  | "na" -> (false, true, false, false)
+  | "nfna" -> (true, true, false, false)
+  | "wr" -> (false, false, true, false)
+  | "nw" -> (false, false, false, true)
   | s -> failwith ("rl " ^ s)
 
-let point_of_tok s : qpoint =
+let point_of_tok s =
   if s = "pre" then QPPre else if s = "ret" then QPRet
   else begin
     let i = int_of_string (String.sub s 1 (String.length s - 1)) in
     match s.[0] with 'w' -> QPWrite (nat_of_int i) | 'g' -> QPGate (nat_of_int i) | _ -> failwith ("point " ^ s) end
 let action_of_tok = function
   | "reply" -> QAReply | "cancel" -> QACancel | "close" -> QAClose | "nop" -> QANop | s -> failwith ("action " ^ s)
-let script_of_tok s : (qpoint * qaction) list =
+let script_of_tok s =
   if s = "-" then [] else
     List.map (fun d -> match split_on ':' d with
         | [p; a] -> (point_of_tok p, action_of_tok a)
@@ -56,12 +57,12 @@ let () =
   reg "qcase" (fun a o -> match a with
     | [_idx; tries; rl; budget; blocked; closed0; fail; script] ->
       let exact = budget <> "-" in
-      let sc = { sc_tries = nat_of_int (int_of_string tries); sc_rl = rl_of_tok rl;
-                 sc_budget = (if exact then Some (nat_of_int (int_of_string budget)) else None);
-                 sc_blocked = bool_of_tok blocked; sc_closed0 = bool_of_tok closed0;
-                 sc_fail = nat_of_int (int_of_string fail); sc_script = script_of_tok script } in
+      let (nf, na, wr, nw) = rl_of_tok rl in
+      let sc = rq_mk_scn (nat_of_int (int_of_string tries)) nf na wr nw
+          (if exact then Some (nat_of_int (int_of_string budget)) else None)
+          (bool_of_tok blocked) (bool_of_tok closed0) (nat_of_int (int_of_string fail)) (script_of_tok script) in
       let allowed = rq_outcomes sc in
-      let show (((((w, r), k), reg), nd) : outcome) =
+      let show ((((w, r), k), reg), nd) =
         Printf.sprintf "%d/%s/%s%s" (int_of_nat w) (if exact then string_of_int (int_of_nat r) else "-")
           (class_name (int_of_nat k)) (if reg || nd then "!leak" else "") in
       (match o with
@@ -72,7 +73,7 @@ let () =
            match split_on '/' tok with
            | [w; r; k] ->
              let w = int_of_string w and k = class_code k in
-             List.exists (fun (((((w', r'), k'), reg), nd) : outcome) ->
+             List.exists (fun ((((w', r'), k'), reg), nd) ->
                  int_of_nat w' = w && int_of_nat k' = k && (not exact || string_of_int (int_of_nat r') = r)
                  && not reg && not nd) allowed
            | _ -> false in
@@ -110,11 +111,11 @@ let tok_of_addr (a : n) : string =
   let ip = BZ.shift_right v 16 and port = BZ.logand v (BZ.of_int 65535) in
   Printf.sprintf "%s:%s" (hex_of_bytes (ofN (nat_of_int w) (n_of_big ip))) (BZ.to_string port)
 
-let lkcfg : lcfg ref = ref { lc_api = ABootstrap; lc_variant = Repaired; lc_abandon_ctx = true; lc_sn = SNOk;
-                             lc_budget = O; lc_target = N0; lc_ann = None; lc_tgt = []; lc_salt = [] }
-let lkst : lstate option ref = ref None
+let mk_cfg api sn target ann tgt salt = rl_mk_cfg (nat_of_int api) (nat_of_int sn) target ann tgt salt
+let lkcfg = ref (mk_cfg 0 0 N0 None [] [])
+let lkst = ref None
 
-let with_state (f : lstate -> lstate) : string =
+let with_state f : string =
   match !lkst with
   | None -> "REJECT no-case"
   | Some s ->
@@ -123,25 +124,26 @@ let with_state (f : lstate -> lstate) : string =
     lkst := Some s';
     if !lkedmiss then "REJECT edtable-miss" else "ok"
 
-let show_send (r : sendrec) : string =
-  Printf.sprintf "%s|%s|%s|%s|%s|%s" (tok_of_addr r.sr_dest) (hex_of_bytes r.sr_token) (hex20_of_n r.sr_ih)
-    (dec_of_z r.sr_port) (tok_of_bool r.sr_implied) (dec_of_z r.sr_seq)
-let show_peer ((((_, a), i), p) : ((nat * addr) * n) * byte list) : string =
+let show_send (((((dest, tok), ih), port), imp), seq) : string =
+  Printf.sprintf "%s|%s|%s|%s|%s|%s" (tok_of_addr dest) (hex_of_bytes tok) (hex20_of_n ih)
+    (dec_of_z port) (tok_of_bool imp) (dec_of_z seq)
+let show_peer ((a, i), p) : string =
   Printf.sprintf "%s|%s|%s" (tok_of_addr a) (hex20_of_n i) (hex_of_bytes p)
 
-let show_result (c : lcfg) (s : lstate) : string =
-  match c.lc_api, s.l_err with
-  | _, Some ErrStart -> "start"
-  | APut, Some ErrCtx -> "ctx:" ^ dec_of_z s.l_autoseq
-  | _, Some ErrCtx -> "ctx"
-  | _, Some ErrNotFound -> "notfound"
-  | AGet, None ->
-    (match s.l_cur with
-     | Some g -> Printf.sprintf "val:%s:%s:%s" (if g.res_mutable then dec_of_z g.res_seq else "-") (hex_of_bytes g.res_v)
-                   (tok_of_bool g.res_mutable)
-     | None -> "val:none")
-  | APut, None -> "ok:" ^ dec_of_z s.l_autoseq
-  | _, None -> "ok"
+let show_result c s : string =
+  let ((err, autoseq), cur) = rl_view_result s in
+  let api = int_of_nat (rl_cfg_api c) in
+  match int_of_nat err with
+  | 1 -> "start"
+  | 2 -> if api = 3 then "ctx:" ^ dec_of_z autoseq else "ctx"
+  | 3 -> "notfound"
+  | _ ->
+    if api = 2 then
+      (match cur with
+       | Some ((seq, v), mut) -> Printf.sprintf "val:%s:%s:%s" (if mut then dec_of_z seq else "-") (hex_of_bytes v) (tok_of_bool mut)
+       | None -> "val:none")
+    else if api = 3 then "ok:" ^ dec_of_z autoseq
+    else "ok"
 
 let () =
   reg "lkedtable" (fun a _ -> match a with
@@ -153,17 +155,14 @@ let () =
     | _ -> "?");
   reg "lkbegin" (fun a _ -> match a with
     | [_idx; api; sn; target; ann; tgt; salt] ->
-      let api = (match api with "bootstrap" -> ABootstrap | "announce" -> AAnnounce | "get" -> AGet | "put" -> APut
-                                | s -> failwith ("api " ^ s)) in
-      let sn = (match sn with "ok" -> SNOk | "err" -> SNErr | "empty" -> SNEmpty | s -> failwith ("sn " ^ s)) in
+      let api = (match api with "bootstrap" -> 0 | "announce" -> 1 | "get" -> 2 | "put" -> 3 | s -> failwith ("api " ^ s)) in
+      let sn = (match sn with "ok" -> 0 | "err" -> 1 | "empty" -> 2 | s -> failwith ("sn " ^ s)) in
       let ann = if ann = "-" then None else
           (match split_on ':' ann with [p; i] -> Some (z_of_dec p, bool_of_tok i) | _ -> failwith "ann") in
       (* the reference model: owners stop their traversal on every path (D8 repaired), a reply with the
-         key but no seq is ignored (D2 repaired), a delivery is given up when the traversal is stopping
-         (D10 repaired) *)
-      let c = { lc_api = api; lc_variant = Repaired; lc_abandon_ctx = true; lc_sn = sn;
-                lc_budget = nat_of_int 4000; lc_target = n_of_hex target; lc_ann = ann;
-                lc_tgt = bytes_of_hex tgt; lc_salt = bytes_of_hex salt } in
+         key but no seq is ignored (D2 repaired), a delivery is given up only once the announce has been closed
+         (D10 repaired: a.closed.Done()) *)
+      let c = mk_cfg api sn (n_of_hex target) ann (bytes_of_hex tgt) (bytes_of_hex salt) in
       lkcfg := c; Hashtbl.reset ipw;
       lkedmiss := false;
       lkst := Some (rl_init lkedv c);
@@ -172,16 +171,14 @@ let () =
   reg "lkissue" (fun a _ -> match a with
     | [q; ad] ->
       (match !lkst with
-       | Some s when int_of_nat s.l_nq <> int_of_string q -> "REJECT query-number model=" ^ string_of_int (int_of_nat s.l_nq)
+       | Some s when int_of_nat (rl_view_nq s) <> int_of_string q -> "REJECT query-number model=" ^ string_of_int (int_of_nat (rl_view_nq s))
        | _ -> with_state (fun s -> rl_event lkedv !lkcfg s (REvIssue (addr_of_tok ad))))
     | _ -> "?");
   reg "lkreply" (fun a _ -> match a with
     | [q; hasr; id; tok; payload; v; k; sg; seq] ->
-      let item : reply = { r_v = bytes_of_hex v; r_k = fixed_hex k 32; r_sig = fixed_hex sg 64;
-                           r_seq = (if seq = "-" then None else Some (z_of_dec seq)) } in
-      let r : greply = { gr_has_r = bool_of_tok hasr; gr_id = (if id = "-" then N0 else n_of_hex id);
-                         gr_token = (if tok = "none" then None else Some (bytes_of_hex tok));
-                         gr_payload = bytes_of_hex payload; gr_item = item } in
+      let r = rl_mk_reply (bool_of_tok hasr) (if id = "-" then N0 else n_of_hex id)
+          (if tok = "none" then None else Some (bytes_of_hex tok)) (bytes_of_hex payload)
+          (bytes_of_hex v) (fixed_hex k 32) (fixed_hex sg 64) (if seq = "-" then None else Some (z_of_dec seq)) in
       with_state (fun s -> rl_event lkedv !lkcfg s (REvReply (nat_of_int (int_of_string q), r)))
     | _ -> "?");
   reg "lknoreply" (fun a _ -> match a with
@@ -199,15 +196,16 @@ let () =
       let s = rl_finish lkedv !lkcfg s0 in
       lkst := None;
       let c = !lkcfg in
-      let sends = List.sort compare (List.map show_send s.l_sends) in
-      let peers = List.sort compare (List.map show_peer s.l_delivered) in
+      let sends = List.sort compare (List.map show_send (rl_view_sends s)) in
+      let peers = List.sort compare (List.map show_peer (rl_view_peers s)) in
+      let ((((pclosed, alldone), panic), aclosed), ctxc) = rl_view_flags s in
       (* observed sends: after Close() / with a cancelled context the datagram of an issued announce_peer /
          put may or may not leave: any sub-multiset is allowed then, otherwise all of them *)
       let obs_sends =
         (match o with
          | "sends" :: n :: rest -> Some (take (int_of_string n) rest)
          | _ -> None) in
-      let cancelled = s.l_aclosed || s.l_ctx in
+      let cancelled = aclosed || ctxc in
       let rec sub_multiset xs ys = match xs with
         | [] -> true
         | x :: xr -> (match ys with
@@ -222,5 +220,5 @@ let () =
         String.concat " "
           ([ "sends"; string_of_int (List.length sends_out) ] @ sends_out @
            [ "peers"; string_of_int (List.length peers) ] @ peers @
-           [ "closed"; b2s s.l_peers_closed; "res"; show_result c s; "done"; b2s (rl_all_done s); "panic"; b2s s.l_panic ]) in
+           [ "closed"; b2s pclosed; "res"; show_result c s; "done"; b2s alldone; "panic"; b2s panic ]) in
       if !lkedmiss then "REJECT edtable-miss " ^ line else line)
